@@ -114,26 +114,33 @@ def run(chk, model_ok=True):
                                     if allowed(body, mac, auth_flag, enc, priv) and body == "response":
                                         chk.notes.append(f"legitimate reply {cls} was not delivered: {r}")
                 # accept_partial: a forgery that ALSO mismatches must never be delivered
-                for field in ("user", "engine_id", "msg_id", "request_id"):
+                from props.c04 import near_bytes, near_ints
+                for field in ("user", "engine_id", "msg_id", "request_id") * (3 if quick else 8):
                     rec = s.send("get", "1.3.6.1")
                     req = s.conv.req
                     if rec["result"][0] != "ok" or not req or "request_id" not in req:
                         continue
-                    over = {}
+                    over = {"reportable": rng.random() < 0.5}
                     rq = dict(req)
                     if field == "user":
-                        over["user"] = st.user + b"x"
+                        over["user"] = near_bytes(rng, st.user)
                     elif field == "engine_id":
-                        over["engine_id"] = st.engine_id[:-1] + bytes([st.engine_id[-1] ^ 1])
+                        over["engine_id"] = near_bytes(rng, st.engine_id)
                     elif field == "msg_id":
-                        over["msg_id"] = (req["msg_id"] + 1) % 2 ** 31
+                        over["msg_id"] = near_ints(rng, req["msg_id"])
                     else:
-                        rq["request_id"] = (req["request_id"] + 1) % 2 ** 31
-                    dg = forge(rng, st, rq, "response", rng.choice(["zero", "absent", "random"]), rng.random() < 0.5, False, 5, **over)
+                        rq["request_id"] = near_ints(rng, req["request_id"])
+                    dg = forge(rng, st, rq, "response", rng.choice(["zero", "absent", "random", "valid"]), rng.random() < 0.7,
+                               bool(priv) and rng.random() < 0.5, 5, **over)
+                    if dg is None:
+                        continue
                     n += 1
                     r = s.recv("get", [dg])["result"]
                     if r[0] == "ok":
-                        fail(f"{s.label}: forged reply with a wrong {field} was delivered", s.line())
+                        shown = over.get(field, rq["request_id"])
+                        shown = shown.hex() if isinstance(shown, bytes) else shown
+                        fail(f"{s.label}: forged reply with a wrong {field} ({shown} instead of "
+                             f"{(getattr(st, field, None) or req.get(field)) if field in ('msg_id', 'request_id') else getattr(st, 'user' if field == 'user' else 'engine_id').hex()}) was delivered", s.line())
     for fid, classes in sorted(reproduced.items()):
         f = [x for x in chk.findings() if x["id"] == fid][0]
         chk.known_finding(f"{fid}: {f['what']} [{len(classes)} forgery classes reproduced, e.g. {sorted(classes)[0]}]")
